@@ -1162,6 +1162,25 @@ func c01CookieStates() []c01CookieState {
 	l = append(l, timed("U2F expired 30s ago", "expired", AuthTypeU2F, -7200, -30), timed("U2F expired 1h ago", "expired", AuthTypeU2F, -7200, -3600),
 		timed("TOTP expired 30s ago", "expired", AuthTypeTOTP, -7200, -30), timed("all factors expired 1h ago", "expired", 4094, -7200, -3600),
 		timed("U2F valid in 30s", "not-yet-valid", AuthTypeU2F, 30, 3600), timed("U2F valid in 1h", "not-yet-valid", AuthTypeU2F, 3600, 7200))
+	// the window claims themselves: exp absent (the claim is omitted when zero: expired in 1970), nbf absent (valid
+	// since 1970), exp in the year 2100
+	claimed := func(name, class string, valid bool, level int, edit func(c *authInfoJWT)) c01CookieState {
+		lv := 0
+		if valid {
+			lv = level
+		}
+		return c01CookieState{name, class, lv, func(m *c01Material, u string) string {
+			return m.staticToken("x|"+name+"|"+u, func() string {
+				now := time.Now().Unix()
+				c := m.claims(u, level, now-100, now+6*3600)
+				edit(&c)
+				return verifSignClaims(m.envU.state.Signer, c)
+			})
+		}}
+	}
+	l = append(l, claimed("U2F without exp claim", "no-exp-claim", false, AuthTypeU2F, func(c *authInfoJWT) { c.Expiration = 0 }),
+		claimed("U2F without nbf claim", "valid", true, AuthTypeU2F, func(c *authInfoJWT) { c.NotBefore = 0 }),
+		claimed("TOTP expiring in 2100", "valid", true, AuthTypeTOTP, func(c *authInfoJWT) { c.Expiration = 4102444800 }))
 	variant := func(name, class string, edit func(m *c01Material, c *authInfoJWT)) c01CookieState {
 		return c01CookieState{name, class, 0, func(m *c01Material, u string) string {
 			return m.staticToken("x|"+name+"|"+u, func() string {
